@@ -297,7 +297,11 @@ def fault_suite(seed, n_modules, out, drv, budget_s=None, pairs=False, max_len=5
             wf, _ = GM.well_formed(m)
             src = drv.run([dict(op='render', module=m)])[0]['src']
             if not wf or len(src) > max_len or src.startswith('\ufeff'): continue
-            base = impl.real_pipeline(sb, src, impl.make_settings(), 'T', 'M')
+            # the fault must be reported under every configuration, also with all include_undocumented_* options off
+            fcfg = g.choice([{}, {}, {'incl': {f: False for f in GM.FLAGS}}, {'incl': {f: g.random() < 0.5 for f in GM.FLAGS}}])
+            if fcfg.get('incl') and not fcfg['incl'].get('cpp_class', True) and any(it['k'] == 'block' and GM.cname(it['open']) == 'cpp_class' and it.get('doc') for it in GM.walk_items(m['items'])):
+                fcfg = {}      # K1 region
+            base = impl.real_pipeline(sb, src, impl.make_settings(fcfg), 'T', 'M')
             if 'err' in base: continue
             spans = comment_spans(src, drv)
             inside = lambda p: any(a < p < b or (a == p and False) for a, b in spans)
@@ -314,10 +318,10 @@ def fault_suite(seed, n_modules, out, drv, budget_s=None, pairs=False, max_len=5
                     (p1, f1, _, _), (p2, f2, _, _) = g.choice(singles), g.choice(singles)
                     if p1 > p2: p1, f1, p2, f2 = p2, f2, p1, f1
                     faulty.append(((p1, p2), (f1, f2), 'pair', src[:p1] + f1 + src[p1:p2] + f2 + src[p2:]))
-            models = drv.run([dict(op='pipeline', cfg={}, headers=['#'], title='T', mod='M', src=s) for _, _, _, s in faulty])
+            models = drv.run([dict(op='pipeline', cfg=dict(incl=fcfg.get('incl', {})), headers=['#'], title='T', mod='M', src=s) for _, _, _, s in faulty])
             out.sample(dict(suite='fault-injection', module_source=src[:400], faults=len(faulty)))
             for (pos, f, mode, s), mo in zip(faulty, models):
-                real = impl.real_pipeline(sb, s, impl.make_settings(), 'T', 'M')
+                real = impl.real_pipeline(sb, s, impl.make_settings(fcfg), 'T', 'M')
                 out.traces_validated += 1
                 key = ('C06', seed, n, pos, f, mode)
                 m_ok = 'rst' in mo; r_ok = 'rst' in real
